@@ -185,6 +185,47 @@ def build_storages(ctx, hid, seed, ncorrupt):
     return w, out
 
 
+def kill_histories(ctx):
+    """No sequence of vsb runs by itself - each run completing, failing, or being killed anywhere except while it
+    deletes an old group - leads to a storage that verification reports inconsistent: the kill/fault histories of
+    C03 (scenario, injection point, follow-up run), each ending with the real verification of the storage."""
+    from props import c03
+    from concurrent.futures import ThreadPoolExecutor
+    results = []
+    for sid, name in enumerate(['first', 'append', 'rotate', 'abandoned']):
+        sc = c03.Scenario(ctx, name, 40 + sid)
+        try:
+            r0, recs = c03.baseline(ctx, sc)
+            plan = []
+            for i, rec in enumerate(recs):
+                n = int(rec['seq'])
+                mut = rec['call'] in c03.MUTATING and (rec['call'] != 'open' or 'CREAT' in rec['extra'])
+                if ctx.tier == 'thorough' or mut or i % 6 == ctx.seed % 6:
+                    plan.append((n, ['kb', 'ka'][n % 2] if ctx.tier == 'quick' else 'kb', ['same-day', 'next-day'][(n // 2) % 2]))
+                    if ctx.tier == 'thorough':
+                        plan.append((n, 'ka', ['next-day', 'same-day'][(n // 2) % 2]))
+                    elif mut:
+                        plan.append((n, ['ENOSPC', 'EIO'][n % 2], ['next-day', 'same-day'][(n // 2) % 2]))
+            with ThreadPoolExecutor(max_workers=12) as ex:
+                results += list(ex.map(lambda a: c03.one_case(ctx, sc, a[0] + 1, *a[1]), enumerate(plan)))
+        finally:
+            sc.cleanup()
+    bad = 0
+    for r in results:
+        v = r.get('verify') or {}
+        if v.get('ok') is True or r.get('partial_group'):
+            continue
+        bad += 1
+        case = {'scenario': r['scenario'], 'n': r['n'], 'mode': r['mode'], 'follow': r['follow']}
+        if r.get('stale_adopted'):
+            ctx.violation('property', 'storage reported inconsistent after vsb runs alone: an interrupted run left an empty group which a run on a later day adopted '
+                          '(%s at call #%d of scenario %s): %s' % (r['mode'], r['n'], r['scenario'], v.get('errors')), {'case': case})
+        else:
+            ctx.violation('property', 'storage reported inconsistent after a kill/fault history of vsb runs alone (%s at call #%d %s of scenario %s, follow-up %s): %s'
+                          % (r['mode'], r['n'], r.get('call'), r['scenario'], r['follow'], v.get('errors')), {'case': case})
+    return {'histories': len(results), 'inconsistent': bad, 'kills_during_old_group_removal_excluded': sum(1 for r in results if r.get('partial_group'))}
+
+
 def check(ctx):
     aud = core.audit(ctx.prop)
     core.report_audit(ctx, aud)
@@ -240,6 +281,7 @@ def check(ctx):
         return None
     slim = [{k: v for k, v in c.items() if k != 'root'} for c in cases]
     st = core.judge(ctx, slim, [view(m) for m in model], [view(i) for i in impl], oracle, label='verify')
+    kh = kill_histories(ctx)
 
     # ---- age alarm grid (real check_backups under the faked clock) ----
     NOW = 1000000000
@@ -305,7 +347,7 @@ def check(ctx):
                 'non-trivial/distinct = distinct (listing, manifests) inputs. age: thresholds 1/2/36 m/h/d x age in threshold-2..threshold+2 s x 4 group shapes + random' % ', '.join(CORRUPTIONS),
         'samples': [{'label': cases[0]['label'], 'manifests': list(cases[0]['input']['manifests'])[:3]}, age_cases[0]],
         'correspondence': {'verify': st, 'age': st2, 'duration': st3},
-        'label_distribution': labels,
+        'label_distribution': labels, 'kill_histories': kh,
         'disagreements_checked': st['cases'] + st2['cases'] + st3['cases'],
     })
     ctx.assumptions += ['faked CLOCK_REALTIME drives SystemTime::now()', 'TZ=UTC (chrono Local)', 'ASCII digits in names and durations',
